@@ -4,15 +4,37 @@ from hypothesis import strategies as st
 from vlib.runner import Sub, ok, bad, skip
 from vlib import bench, periph
 
-RULE = ("every case builds a fresh core, drives a generated command history and judges pin/CSR-level traces against an "
-        "independent statement of the externally defined behaviour; every history ends with a bounded return-to-idle "
-        "requirement; non-trivial = (timer) history with a reload at zero and a disable, (uart) >= 2 frames back-to-back / "
-        "RX with |eps| >= 1.5 %, (spi) a start issued while the divider is mid-phase plus a second transfer, (i2c) a "
-        "complete START..STOP transaction with >= 2 bytes; distinct = canonical JSON of the case")
+RULE = ("every case builds a fresh core (bench top = core + real CSRBank where the core has CSRs, + Migen pin partners), drives "
+        "a generated command history and judges pin / CSR-level traces against a statement of the externally defined behaviour "
+        "(UART framing at the programmed bit period, SPI mode 0, I2C bus rules, documented timer / watchdog / PWM semantics); "
+        "every history ends with a bounded return-to-idle requirement; non-trivial per sub-check (see rules): timer history with a "
+        "reload at zero and a disable, >= 2 UART frames with a back-to-back offer, RX with |eps| >= 1.5 % or gap 0, SPI start "
+        "issued while the divider is mid-phase plus a second transfer, I2C transaction with >= 2 bytes; distinct = canonical JSON "
+        "of the case")
 ASSUMPTIONS = [
     "Migen's simulator (site-packages) defines FHDL semantics",
-    "CSR accesses go through a real csr_bus.CSRBank (32-bit bus) next to the core; the bank itself is C12's subject",
-    "a CSR write issued in step t reaches the storage / strobes `re` in cycle t+2 (measured once per case class)",
+    "CSR accesses go through a real csr_bus.CSRBank (32-bit bus) next to the core (no back-door writes); the bank itself is "
+    "C12's subject; a write issued in step t reaches the storage / strobes `re` in cycle t+2 (timer, watchdog: the model's "
+    "register values are compared with the observed storages every cycle, a mismatch is a harness error, not a violation)",
+    "UART RX: correct reception is required only inside the measured envelope (|eps| <= 2 % from 16 cycles/bit, <= 1 % from "
+    "8.68 cycles/bit), gaps >= 0 between frames, >= 1.5 bit of idle after a framing error or break; UART TX: 4..48 (thorough "
+    "400) cycles per bit - below 4 the one-cycle edge tolerance is vacuous; tuning word changes during a frame are not generated",
+    "SPIMaster: dividers >= 2, length 1..data_width, length / cs / loopback / divider registers are not rewritten during a "
+    "transfer (a second start and a new mosi word are), divider only raised at run time in sub-check 'spim' (lowering: "
+    "'spim-divider'); the slave partner is an ideal zero-delay mode-0 device, optionally with MISO valid only from the falling "
+    "edge until one cycle after the rising edge; the one-cycle cs_n=0 after reset (pad reset value) is ignored",
+    "SPISlave: reference master at >= 8 system cycles per SPI clock, chip-select lead >= 6 cycles, gaps >= 8 cycles",
+    "I2C: clock load >= 1 (load 0 leaves no cycle for the pad logic to move SDA), one command bit per write (compound commands "
+    "are marked TODO in the source), no clock stretching, a READ only after an address byte; commands written while busy only "
+    "in sub-check 'i2c-busy'; legality is judged at the pads through a mock open-drain tristate",
+    "Timer: exact alignment taken from the code (counter holds `load` while disabled; first enabled cycle shows `load`; zero "
+    "event = count is 0), so a one-shot fires exactly `load` cycles after the enable takes effect; NOT asserted: the periodic "
+    "period, which is reload+1 cycles although the register description says `reload` cycles",
+    "Watchdog: `remaining` is 0 after reset, so enabling without a feed times out at once (taken as specified); the time-out "
+    "event follows the zero count by one enabled cycle; crg_rst: must be up while the condition has been held for reset_delay "
+    "cycles and still holds, must be down unless it was held during the last reset_delay cycles",
+    "PWM: judged in settled intervals only (one period after the last register write); period 0 and MultiChannelPWM are not covered",
+    "pending/irq of the event managers follow C15's model (rising-edge process source, set wins over clear)",
 ]
 
 
@@ -25,15 +47,12 @@ def _first_diff(exp, got):
 
 # ===================================================================================== Timer
 
-TIMER_REGS = ("load", "reload", "en", "upd", "clr", "ien", "uplatch")
-
-
 def st_timer(tier):
     small = st.integers(0, 12)
 
     @st.composite
     def case(draw):
-        width = draw(st.sampled_from([32, 32, 32, 8, 16, 5, 64 if False else 32]))
+        width = draw(st.sampled_from([32, 32, 32, 32, 8, 16, 5]))
         top = (1 << width) - 1
         val = st.one_of(small, small, st.integers(0, 40), st.sampled_from([top, top - 1, 1 << (width - 1)]))
         gap = st.one_of(st.integers(0, 3), st.integers(0, 3), st.integers(0, 30))
@@ -77,7 +96,8 @@ def run_timer(case):
     if case["uptime"]:
         sigs.append(core._uptime_cycles.status)
     probe = bench.Probe(sigs)
-    cyc = bench.run(top, [periph.BusProgram(top, writes), probe], ncyc)
+    regs = bench.Probe([core._load.storage, core._reload.storage, core._en.storage, core.ev.enable.storage])
+    cyc = bench.run(top, [periph.BusProgram(top, writes), probe, regs], ncyc)
 
     # ---- reference: documented behaviour, cycle alignment as stated in ASSUMPTIONS
     eff = {}                      # cycle -> list of (kind, value) taking effect in that cycle
@@ -107,6 +127,9 @@ def run_timer(case):
                 clr = bool(v & 1)     # write 1 to clear
             elif k == "uplatch":
                 upl = True
+        if regs.trace[c] != (load, reload_, en, ien):
+            raise RuntimeError("C19 harness: CSR write timing assumption broken in cycle %d: storages %r, expected %r" % (
+                c, regs.trace[c], (load, reload_, en, ien)))
         trig = int(value == 0)
         row = [trig, status, pending, pending & ien]
         if case["uptime"]:
@@ -567,8 +590,6 @@ def run_spim(case):
             return self.prog.step(t, vals[5])
 
     ag = Agent()
-    tail = 2 * 64 + 8
-    state = {"stop": None}
 
     def stop(t):
         f = ag.prog.finished_at
@@ -970,7 +991,8 @@ def run_watchdog(case):
                 return [halted.eq(halts[c])]
 
     probe = bench.Probe([core._remaining.status, core.ev.wdt.trigger, core.ev.wdt.pending, core.ev.irq, rst])
-    cyc = bench.run(top, [periph.BusProgram(top, writes), Halt(), probe], n)
+    regs = bench.Probe([core._cycles.storage, core._control.storage, halted])
+    cyc = bench.run(top, [periph.BusProgram(top, writes), Halt(), probe, regs], n)
     eff = {}
     for t, op in sched.items():
         eff.setdefault(t + (1 if op[1] == "halt" else 2), []).append((op[1], op[2]))
@@ -998,6 +1020,9 @@ def run_watchdog(case):
                 clr = bool(v & 1)
             elif k == "ev_enable":
                 ien = v & 1
+        if regs.trace[c] != (cycles, ctrl & 0x1010101, halt_in):
+            raise RuntimeError("C19 harness: CSR write timing assumption broken in cycle %d: %r, expected %r" % (
+                c, regs.trace[c], (cycles, ctrl & 0x1010101, halt_in)))
         enable = ((ctrl >> 8) & 1) & (1 - (halt_in & ((ctrl >> 24) & 1)))
         if ((ctrl >> 8) & 1) and not enable and remaining:
             paused += 1
@@ -1500,7 +1525,8 @@ def run_uartcore(case):
         drain_ops[t] = ("ev_pending", 2)
         t += 3
     writes.update(drain_ops)
-    n = t + case["dtx"] * 3 + 40
+    # (auto flush: an intermittently ready PHY takes at least one byte per schedule period of <= 36 cycles)
+    n = t + case["dtx"] * 3 + 40 + ((case["dtx"] + 2) * 40 if case["flush"] else 0)
     toks = [((b,), (), 0, 0) for b in case["rx"]]
     prod = bench.Producer(core.sink, toks, case["rxs"], until=main)
     cons = bench.Consumer(core.source, case["txs"], until=main if not case["flush"] else None)
